@@ -482,3 +482,143 @@ pub fn catch<R>(f: impl FnOnce() -> R) -> Result<R, String> {
 pub fn quiet_panics() {
     std::panic::set_hook(Box::new(|_| {}));
 }
+
+// ---------------------------------------------------------------------------------------
+// Allocator for the engines.
+//
+// `Artifact::run` allocates (and zeroes) the full 32 MiB address range of a contract's
+// linear memory for every run. With the system allocator that is one mmap + one munmap
+// per run, both of which take the process-wide address-space lock exclusively, so 16
+// exploring threads serialise on it. This allocator keeps a small pool of such blocks and
+// resets a returned block with madvise(MADV_DONTNEED) (which only needs the lock shared,
+// and makes the pages read as zero again), so the implementation under test sees exactly
+// what it would see from a fresh calloc: a zero-filled block.
+// ---------------------------------------------------------------------------------------
+
+use std::alloc::{GlobalAlloc, Layout, System};
+use std::sync::atomic::AtomicUsize;
+
+pub const BIG_BLOCK: usize = 512 * 65536;
+const POOL_SLOTS: usize = 64;
+
+pub struct PoolAlloc;
+
+static POOL: [AtomicUsize; POOL_SLOTS] = [const { AtomicUsize::new(0) }; POOL_SLOTS];
+
+thread_local! {
+    /// Upper bound (in bytes) on the prefix of a big block that the current thread's runs can
+    /// have written to; `usize::MAX` = unknown. Set by the harness from the artifact's
+    /// declared maximal memory before running it.
+    static DIRTY_LIMIT: std::cell::Cell<usize> = const { std::cell::Cell::new(usize::MAX) };
+    /// One cached big block per thread (0 = none).
+    static LOCAL_BLOCK: std::cell::Cell<usize> = const { std::cell::Cell::new(0) };
+}
+
+/// Tell the allocator that until further notice big blocks freed by this thread have been
+/// written to at most in their first `bytes` bytes (the linear memory of the artifact being
+/// run cannot grow beyond that). Blocks are then reset by zeroing that prefix instead of a
+/// system call.
+pub fn set_dirty_limit(bytes: usize) { DIRTY_LIMIT.with(|d| d.set(bytes)); }
+
+const MEMSET_MAX: usize = 1 << 20;
+
+unsafe fn big_alloc() -> *mut u8 {
+    // The dirty limit in force when the block is handed out is recorded out of band, in an
+    // extra page behind the block, and used when the block comes back (which may be after
+    // the harness has moved on to another artifact).
+    let limit = DIRTY_LIMIT.with(|d| d.get());
+    let local = LOCAL_BLOCK.with(|l| l.replace(0));
+    if local != 0 {
+        *((local + BIG_BLOCK) as *mut usize) = limit;
+        return local as *mut u8;
+    }
+    for slot in POOL.iter() {
+        let p = slot.swap(0, Ordering::AcqRel);
+        if p != 0 {
+            *((p + BIG_BLOCK) as *mut usize) = limit;
+            return p as *mut u8;
+        }
+    }
+    let p = libc::mmap(
+        std::ptr::null_mut(),
+        BIG_BLOCK + 4096,
+        libc::PROT_READ | libc::PROT_WRITE,
+        libc::MAP_PRIVATE | libc::MAP_ANONYMOUS,
+        -1,
+        0,
+    );
+    if p == libc::MAP_FAILED {
+        std::ptr::null_mut()
+    } else {
+        *((p as usize + BIG_BLOCK) as *mut usize) = limit;
+        p as *mut u8
+    }
+}
+
+unsafe fn big_free(ptr: *mut u8) {
+    // make the block read as zeroes again, then keep it for reuse
+    let limit = *((ptr as usize + BIG_BLOCK) as *const usize);
+    if limit <= MEMSET_MAX {
+        std::ptr::write_bytes(ptr, 0, limit);
+    } else {
+        libc::madvise(ptr as *mut libc::c_void, BIG_BLOCK, libc::MADV_DONTNEED);
+    }
+    let kept = LOCAL_BLOCK.with(|l| {
+        if l.get() == 0 {
+            l.set(ptr as usize);
+            true
+        } else {
+            false
+        }
+    });
+    if kept {
+        return;
+    }
+    for slot in POOL.iter() {
+        if slot.compare_exchange(0, ptr as usize, Ordering::AcqRel, Ordering::Relaxed).is_ok() {
+            return;
+        }
+    }
+    libc::munmap(ptr as *mut libc::c_void, BIG_BLOCK + 4096);
+}
+
+unsafe impl GlobalAlloc for PoolAlloc {
+    unsafe fn alloc(&self, layout: Layout) -> *mut u8 {
+        if layout.size() == BIG_BLOCK && layout.align() <= 4096 {
+            big_alloc()
+        } else {
+            System.alloc(layout)
+        }
+    }
+
+    unsafe fn alloc_zeroed(&self, layout: Layout) -> *mut u8 {
+        if layout.size() == BIG_BLOCK && layout.align() <= 4096 {
+            // pooled blocks are zero: fresh from mmap or reset by MADV_DONTNEED
+            big_alloc()
+        } else {
+            System.alloc_zeroed(layout)
+        }
+    }
+
+    unsafe fn dealloc(&self, ptr: *mut u8, layout: Layout) {
+        if layout.size() == BIG_BLOCK && layout.align() <= 4096 {
+            big_free(ptr)
+        } else {
+            System.dealloc(ptr, layout)
+        }
+    }
+
+    unsafe fn realloc(&self, ptr: *mut u8, layout: Layout, new_size: usize) -> *mut u8 {
+        if layout.size() == BIG_BLOCK || new_size == BIG_BLOCK {
+            let new_layout = Layout::from_size_align_unchecked(new_size, layout.align());
+            let n = self.alloc(new_layout);
+            if !n.is_null() {
+                std::ptr::copy_nonoverlapping(ptr, n, layout.size().min(new_size));
+                self.dealloc(ptr, layout);
+            }
+            n
+        } else {
+            System.realloc(ptr, layout, new_size)
+        }
+    }
+}
